@@ -21,6 +21,13 @@ CLAIMED["C11"] = (
     "DESIGN.md §2 E-CACHE, §3 C11",
 )
 
+CLAIMED["C09"] = (
+    "ast pairing analysis of Scenario: id paths reserved per add_objects branch vs released per removal form (single/list), containment guards by syntax-directed dominance, ownership (who may drop / touch _id_set), atomic reservation, counter monotonicity",
+    "Per-operation invariant argument that covers every history: each add branch reserves the id paths of the object it stores in one all-or-nothing step before storing; each removal form releases exactly those paths and only under a containment guard; only designated functions drop objects or touch the id pool; replacing the network releases the old ids; the counter only grows and generate_object_id folds in max(_id_set). Decided for all 9 object kinds and 5 removal functions.",
+    "Trusts that Scenario is the only writer of its private registries (other modules reaching into _id_set are out of view) and that LaneletNetwork.remove_* removes exactly the element with the given id.",
+    "DESIGN.md §2 E-PAIRING, §3 C09",
+)
+
 NOT_APPLICABLE = {
     "C17": "modular arithmetic over runtime integers (%, cumsum, argmax): no sound static argument in reach; the only structural part (memo freshness) is decided under C11, and 'TrafficLight delegates to its cycle' is sufficient but not necessary, so a rule on it would fire on behaviour-preserving edits",
 }
